@@ -189,6 +189,19 @@ static int trace_main(const char *out, unsigned seed, int nkeys, long nops) {
                 char k[12]; snprintf(k, sizeof k, "c%d", cand);
                 if ((int)(hash_string(k) & 255) == homes[part]) { snprintf(keys[n++], sizeof keys[0], "%s", k); want--; }
             }
+        if (atoi(getenv("VP_TRACE_CLUSTER")) == 2) {
+            /* second adversarial key set: one key per home slot 200, 201, ... 255, 0, 1, ... : a cluster of single-key chains that is longer
+               than half of the table and wraps around its end (cyclic "before / after" tests over more than half a table) */
+            static int slot_key[256];
+            int want = nkeys < 180 ? nkeys : 180, got = 0;
+            memset(slot_key, -1, sizeof slot_key);
+            for (cand = 0; got < want; cand++) {
+                char k[12]; snprintf(k, sizeof k, "c%d", cand);
+                int off = ((int)(hash_string(k) & 255) - 200 + 256) & 255;
+                if (off < want && slot_key[off] < 0) { slot_key[off] = cand; got++; }
+            }
+            for (n = 0; n < want; n++) snprintf(keys[n], sizeof keys[0], "c%d", slot_key[n]);
+        }
         nkeys = n;
         /* scripted part: fill the whole set in, then take keys away at the head of the cluster and look every key up again */
         for (int i = 0; i < nkeys && nextv < TV - 2; i++) {
